@@ -2,6 +2,7 @@ import BlockModes.Thm.C02
 import BlockModes.Thm.C03
 import BlockModes.Thm.C04
 import BlockModes.Thm.C06
+import BlockModes.Impl.CfbBuf
 /-
   C09 — the exported IV state resumes the stream and equals the public chaining value.
 
@@ -94,5 +95,10 @@ theorem ctr_resume (f : Flavor) (hw : f.w = 8 * f.cs) (hcs : 0 < f.cs)
 /-- BelT: see `C06.belt_ivstate_resumes`. -/
 theorem belt_resume (C : Cipher) (hC : C.Valid) (hbs : C.bs = 16) (st : Belt.St) (hs : st.s < Belt.M) :
     (Belt.init C (Belt.ivState C st)).s = st.s := C06.belt_ivstate_resumes C hC hbs st hs
+
+/-- buffered CFB: the exported `(block, position)` pair re-creates exactly the state it was taken from,
+    at any byte position (so the fresh instance continues as the original would have). -/
+theorem cfbbuf_state_resume (s : CfbBuf.St) :
+    CfbBuf.fromState (CfbBuf.getState s).1 (CfbBuf.getState s).2 = s := rfl
 
 end Thm.C09
